@@ -15,6 +15,9 @@ void sim_alloc_arm(int k);
 void sim_alloc_arm_sticky(int k);
 /** returns the remaining countdown (> 0: the fault did not fire) */
 int sim_alloc_disarm(void);
+/** harness code that allocates on its own behalf inside an armed operation */
+void sim_alloc_suspend(void);
+void sim_alloc_resume(void);
 unsigned sim_alloc_eligible_seen(void);
 unsigned sim_alloc_failed(void);
 /** NULL-terminated list of function names whose allocations may fail;
